@@ -63,6 +63,24 @@ def w_obligations(ctx, oc, tag):
                           limits={'steps': budget(len(s)), 'timeout_ms': 30000, 'branch_timeout_ms': 3000, 'abstract_fdiv': True, 'syntactic': not ('gcd' in s or 'lcm' in s), 'max_paths': 400 if ev == 'decimal' else None}, replay_cap=1)
             if ev == 'decimal' or (ev == 'i64' and ('gcd' in s or 'lcm' in s)): ob.limit_is_violation = False
             obs.append(ob)
+        # no operand is evaluated more than once: right- and left-nested chains of depth 14 of every binary operator and nested one-argument calls
+        # (re-evaluating an operand doubles the work at every level: 2^14 evaluations exceed the budget)
+        NEST = {'i64': ['+', '*', '%', '/', '^', '&', '<<'], 'f64': ['+', '*', '%', '/', '^'], 'number': ['+', '*', '%', '/'], 'decimal': ['+', '%', '/'], 'complex': ['+', '*', '/', '^']}[ev]
+        for op in (NEST if ctx.tier == 'thorough' or ev != 'decimal' else NEST[:2]):
+            D = 14
+            right = '@' + ''.join(op + '(@' for _ in range(D)) + ')' * D
+            left = '(' * D + '@' + ''.join(op + '@)' for _ in range(D))
+            rightn = '1' + ''.join(op + '(' + str(k) for k in range(2, D + 2)) + ')' * D          # 1%(2%(3%...)): operands that keep every intermediate result non-zero
+            leftn = '(' * D + '99' + ''.join(op + str(k) + ')' for k in range(2, D + 2))
+            for nm, s in (('right', right), ('left', left), ('right-literals', rightn), ('left-literals', leftn)):
+                ob = PublicOb('C02', ev, [ord(c) for c in s], any_outcome, '%s/W/nest-%s%s/%s' % (ev, nm, op, tag), oc=oc,
+                              limits={'steps': budget(len(s)), 'timeout_ms': 30000, 'branch_timeout_ms': 3000, 'abstract_fdiv': True, 'syntactic': True, 'max_paths': 400}, replay_cap=0)
+                if ev == 'decimal': ob.limit_is_violation = False
+                obs.append(ob)
+        fn1 = {'i64': 'abs', 'f64': 'sqrt', 'number': 'abs', 'decimal': 'abs', 'complex': 'sqrt'}[ev]
+        s = (fn1 + '(') * 14 + '@' + ')' * 14
+        obs.append(PublicOb('C02', ev, [ord(c) for c in s], any_outcome, '%s/W/nest-%s/%s' % (ev, fn1, tag), oc=oc,
+                            limits={'steps': budget(len(s)), 'timeout_ms': 30000, 'branch_timeout_ms': 3000, 'abstract_fdiv': True, 'syntactic': True, 'max_paths': 400}, replay_cap=0))
         # lexing and parsing work: every string of 0..2 characters, long literals and superscript runs, nested brackets
         for k in range(0, 3):
             if k == 2 and ev == 'decimal' and ctx.tier == 'quick': continue
